@@ -26,8 +26,10 @@ RULE = ('one evaluation = one case = a batch of runs; a run = a fresh container 
         'negative, also above sys.maxsize) and 1..4 devices, queries interleaved with edits; (M) ill-typed calls mixed '
         'into R. Non-trivial = the case has a run with an edit followed by a query; distinct = distinct batch content.')
 TRUSTED = ['quaternion.slerp / PoseTransform arithmetic inside compute_intermediate_pose: section variable `interp` '
-           '(no contract needed: the theorems hold for every function); the harness identifies the bracket an '
-           'interpolated pose was computed from by recomputing compute_intermediate_pose on candidate brackets',
+           '(no contract needed: the theorems hold for every function); the harness observes the bracket of an '
+           'interpolated pose exactly, by recording the arguments of kapture.core.Trajectories.compute_intermediate_pose '
+           '(module attribute replaced by a recorder during a run, restored afterwards); only if the recorder saw '
+           'nothing (function inlined) it falls back to recomputation on candidate brackets',
            'CPython int true division and int(): modelled by MTraj.fdiv10 (round-half-even to 53 bits, truncate), '
            'compared with computation.num_digits on every run']
 ASSUMPTIONS = ['operations are the ones listed in the property; dict methods inherited from the base class that bypass '
@@ -406,42 +408,97 @@ def _pose_arrays(p):
     return np.concatenate([quaternion.as_float_array(p.r).ravel(), np.asarray(p.t, dtype=float).ravel()])
 
 
-def _identify_mix(res, t, hist, objs):
-    """Which bracket was this interpolated pose computed from?  Recompute compute_intermediate_pose on
-    candidate brackets among every (timestamp, payload) ever stored for the device, nearest first."""
+class _BracketRecorder:
+    """Observes the bracket of every interpolation exactly: while a Trajectories run is in progress the module
+    attribute kapture.core.Trajectories.compute_intermediate_pose (the function intermediate_pose calls) is replaced
+    by this recorder, which calls the real function and remembers, for the very object it returns, the arguments it
+    was computed from.  Nothing is inferred from floating-point values."""
+
+    def __init__(self):
+        import inspect
+        import kapture.core.Trajectories  # noqa: F401
+        self.mod = sys.modules['kapture.core.Trajectories']
+        self.orig = self.mod.compute_intermediate_pose
+        if isinstance(self.orig, _BracketRecorder):      # a previous run was interrupted before restoring
+            self.orig = self.orig.orig
+        self.sig = inspect.signature(self.orig)
+        self.calls = {}         # id(result) -> (result (kept alive), timestamp, low_ts, low_p, up_ts, up_p)
+
+    def __call__(self, *args, **kwargs):
+        res = self.orig(*args, **kwargs)
+        try:
+            b = self.sig.bind(*args, **kwargs)
+            self.calls[id(res)] = (res,) + tuple(b.arguments.values())[:5]
+        except TypeError:
+            pass
+        return res
+
+    def __enter__(self):
+        self.mod.compute_intermediate_pose = self
+        return self
+
+    def __exit__(self, *exc):
+        self.mod.compute_intermediate_pose = self.orig
+        return False
+
+    def bracket_of(self, res, ident):
+        rec = self.calls.get(id(res))
+        if rec is None or rec[0] is not res:
+            return None
+        _, t, lo_ts, lo_p, hi_ts, hi_p = rec
+        lo_id, hi_id = ident(lo_p), ident(hi_p)
+        if lo_id is None or hi_id is None:
+            return ['unknown', 'interpolated from a pose that was never stored']
+        return ['mix', int(t), int(lo_ts), lo_id, int(hi_ts), hi_id]
+
+
+def _identify_mix(res, t, hist, objs, compute, is_stored):
+    """Fallback, used only when the recorder did not see the interpolation (e.g. a refactoring inlined
+    compute_intermediate_pose): recompute it on candidate brackets among every (timestamp, payload) ever stored for
+    the device, nearest first.  Several brackets can give the same floats (19-digit timestamps, query next to a
+    stored pose: the result rounds to that pose); among the matches, brackets whose two ends the container still
+    holds (as it answers itself, is_stored) are preferred, nearest first - an ambiguity can then hide a wrong
+    bracket only where it changes nothing in the returned pose."""
     import numpy as np
-    from kapture.core.Trajectories import compute_intermediate_pose
     target = _pose_arrays(res)
     below = sorted({e for e in hist if e[0] < t}, key=lambda e: (t - e[0], -e[1]))
     above = sorted({e for e in hist if e[0] > t}, key=lambda e: (e[0] - t, -e[1]))
 
     def match(lo, hi):
         try:
-            cand = compute_intermediate_pose(t, lo[0], objs[lo[1]], hi[0], objs[hi[1]])
+            cand = compute(t, lo[0], objs[lo[1]], hi[0], objs[hi[1]])
         except Exception:
             return False
         return np.array_equal(_pose_arrays(cand), target, equal_nan=True)
-    tried = 0
+    tried, found = 0, []
     for lo in below:
         for hi in above:
             tried += 1
-            if tried > 4000:
-                return None
-            if match(lo, hi):
-                return ['mix', t, lo[0], lo[1], hi[0], hi[1]]
-    allh = sorted(set(hist))
-    for lo in allh:
-        for hi in allh:
-            if lo[0] != hi[0] and not (lo[0] < t < hi[0]):
-                tried += 1
-                if tried > 6000:
-                    return None
-                if match(lo, hi):
-                    return ['mix', t, lo[0], lo[1], hi[0], hi[1]]
-    return None
+            if tried <= 4000 and match(lo, hi):
+                found.append((lo, hi))
+    if not found:
+        allh = sorted(set(hist))
+        for lo in allh:
+            for hi in allh:
+                if lo[0] != hi[0] and not (lo[0] < t < hi[0]):
+                    tried += 1
+                    if tried <= 6000 and match(lo, hi):
+                        found.append((lo, hi))
+    if not found:
+        return None
+    live = [(lo, hi) for lo, hi in found if is_stored(*lo) and is_stored(*hi)]
+    lo, hi = (live or found)[0]
+    return ['mix', t, lo[0], lo[1], hi[0], hi[1]]
 
 
 def _run_one(run):
+    if run['kind'] == 'traj':
+        with _BracketRecorder() as rec:
+            return _run_ops(run, rec)
+    return _run_ops(run, None)
+
+
+def _run_ops(run, rec):
     kind = run['kind']
     c = _new_container(kind)
     objs = {}                      # payload id -> object
@@ -511,10 +568,20 @@ def _run_one(run):
                 if v is None:
                     res = ['none']
                 elif ident(v) is not None:
-                    res = ['val', ident(v)]
+                    res = ['val', ident(v)]           # the very object that was stored
                 else:
-                    res = _identify_mix(v, op[1], hist.get(op[2], []), objs) or \
-                        ['unknown', [float(x) for x in _pose_arrays(v)]]
+                    res = rec.bracket_of(v, ident) if rec else None
+                    if res is None:
+                        dev = op[2]
+
+                        def is_stored(ts, pid):
+                            try:
+                                return (ts, dev) in c and c[ts, dev] is objs[pid]
+                            except Exception:
+                                return False
+                        res = _identify_mix(v, op[1], hist.get(dev, []), objs,
+                                            rec.orig if rec else None, is_stored) or \
+                            ['unknown', [float(x) for x in _pose_arrays(v)]]
             elif k == 'bad':
                 v = _call_bad(c, kind, op[1], op[2], op[3], good)
                 res = ['returned', repr(v)[:60]]
@@ -751,6 +818,6 @@ LEVEL_TEXT = ('Theorems in coq/Props/C07.v hold for every operation sequence of 
               'later pose of that device when both are within the interval, else None - never an exception. The executable '
               'model is tied to the code by replaying exhaustive small-scope and long random operation sequences on the real '
               'classes and comparing every answer, including exception classes, inside Coq.')
-LEVEL_NOTE = ('Trusted: Coq kernel + vm_compute, harness encoders, identification of interpolation brackets by recomputation, '
+LEVEL_NOTE = ('Trusted: Coq kernel + vm_compute, harness encoders, exact observation of interpolation brackets by a recorder placed on compute_intermediate_pose, '
               'CPython float division model for num_digits. Inherited dict methods that bypass the overridden accessors are '
               'outside the judged domain.')
